@@ -23,7 +23,7 @@ CHECKS = {
 }
 
 # properties whose checks are registered (theorems proved, check green on the unchanged tree)
-READY = {'C16', 'C12', 'C06', 'C13', 'C14', 'C20', 'C08', 'C03', 'C01', 'C19', 'C05', 'C07', 'C15', 'C17', 'C09', 'C04'}
+READY = {'C16', 'C12', 'C06', 'C13', 'C14', 'C20', 'C08', 'C03', 'C01', 'C19', 'C05', 'C07', 'C15', 'C17', 'C09', 'C04', 'C02', 'C10'}
 
 CHECKS['C12'] = (
     'Lean 4 theorems: round trip parse(encodeOps ops) = annotate ops for every well-formed operation sequence (any length, nesting depth, '
@@ -161,6 +161,25 @@ CHECKS['C04'] = (
     'iter_dies_flatten takes "the cache function returns each flatten entry at its offset" (Covered) as a hypothesis — what die_roundtrip would discharge. '
     'DW_FORM_ref_sig8 to a DWARF 5 type unit in .debug_info raises KeyError (known finding sig8-v5-type-unit). Legacy DW_FORM_ref (code 2) is special-cased in the model, not tied.',
     'DESIGN.md §6 C04')
+
+CHECKS['C02'] = (
+    'Lean 4 theorems: section data = extent / zero block / inflated payload with logical size and alignment from the Chdr (zlib as a parameter with one stated assumption), '
+    'rejection of size mismatches and unknown ch_type; Chdr round trip; segment data; interpreter string; chunked string reader = first-NUL slice for every chunk size; '
+    'address_offsets exact; section_in_segment = the strict containment rule for all field values, and = the binutils macro in mod-2^64 arithmetic under no-overflow '
+    '(with a proved wrap counterexample); kernel-checked naming of the p_type/sh_type/ch_type codes the rule uses in every regenerated table; correspondence on systematic geometry recipes',
+    'Proof: contents, strings, address mapping and the section-in-segment decision equal the Spec for all inputs of their domain.',
+    'in_segment_eq_C_macro is partial as designed (no-overflow + plain case: .tbss size rule and PT_DYNAMIC/PT_NOTE zero-size clause excluded). zlib behaviour enters through one hypothesis '
+    '(decompress(c, n) returns the first n bytes of the inflated payload). End-to-end composition through openElf/getSection, error-side behaviours (>= 2^63, read(-n), NOBITS+COMPRESSED) and UTF-8 decoding are correspondence-only.',
+    'DESIGN.md §6 C02')
+CHECKS['C10'] = (
+    'Lean 4 refinement: a state machine over the caches (unit list with CPython bisect, per-unit DIE list/map, parent/terminator links, suspended generators, line-program cache, section and '
+    'symbol name maps, stream positions) with an invariant preserved by every operation incl. adversarial seeks and partial iterator consumption; for the lookup class of operations the '
+    'answer in ANY reachable state equals the stateless answer (history independence, stream-position independence, repeatability); exhaustive history exploration to a depth bound and random '
+    'soaks comparing a live object with freshly opened ones and with the Lean step function',
+    'Proof for the invariant (all operations) and for answer refinement on the lookup operations; model checking-style exhaustive exploration + correspondence for the generator operations.',
+    'answer refinement is proved for cuAt/cuCont/top/die/refaddr/lp/secIdx/symByName/seek; children/parent/iterator answers, siblings/ref/pubname ops, random_access_eq_sequential, the CFI entry cache, '
+    'abbrev cache and line-program header contents are exploration/correspondence only. Known finding lineprogram-define-file-header (get_entries mutates the header). Invalid get_CU_at offsets poison the cache by design (out of scope).',
+    'DESIGN.md §6 C10')
 
 NOT_YET = {
 }
